@@ -337,8 +337,8 @@ def run(r: core.Run, mode, prop_module, what, known_ops_key="ops"):
                                  f"first: {text_of(ops[i])!r} impl={impl[i][:300]!r} model={model[i][:300]!r}")
         elif hook_mism:
             i = hook_mism[0]
-            tie = core.TieBroken(f"hooks correspondence ({mode}): the model of the WHERE-clause hooks and the real hooks build different "
-                                 f"pattern clauses for {len(hook_mism)} statements", f"first: {text_of(ops[i])!r}: {hooks[i][:600]}")
+            tie = core.TieBroken(f"hooks correspondence ({mode}): the model of the SELECT hooks and the real hooks build different "
+                                 f"statements (clauses, projections, graphs, GROUP BY, ORDER BY, LIMIT, bounds) for {len(hook_mism)} statements", f"first: {text_of(ops[i])!r}: {hooks[i][:600]}")
     except core.TieBroken as e:
         tie = e
 
